@@ -70,8 +70,8 @@ Theorem C05_progress : forall f E t s v s',
 Proof. exact decA_consumes_one. Qed.
 
 (* without the restriction the decoder still terminates on every input, but the number of
-   iterations is then governed by the decoded count (up to 2^64 through `as usize` of a negative
-   count), not by the input length: this is the known finding F14, exhibited on the model by
+   iterations is then governed by the decoded count (up to 2^31 - 1; negative counts other than
+   the unknown-length marker are rejected), not by the input length: this is the known finding F14, exhibited on the model by
    C05_zero_width_spins (5 bytes of input, more than 1000 iterations) *)
 Theorem C05_terminates : forall E t bs st,
   wf_env E = true -> wf_ty E t = true -> exists f, decodeA f E t bs st <> Fuel.
